@@ -28,6 +28,9 @@ CLAIMED = {
  "C09": dict(tech="who-may-write rules (raw head fields, matching index); construct->bind->use typestate per FlowHead construction site via CFG must-pass-through; de-register-before-delete dominance at every deletion site; drain structure of run_to_completion",
              text="Decides the mechanisms without which the incremental event->heads index cannot be exact: only the notifying setters move a head, every constructed or deserialised head has both callbacks bound to its own flow before it moves, every deletion of heads/flow states de-registers first, the index has exactly two symmetric maintainers, and the event loop ends only with an empty queue. The invariant over all reachable states is not decided. Found and repaired F7.",
              ref="DESIGN.md C09"),
+ "C10": dict(tech="resolved call graph from run_to_completion with exception-containment cut: frontier edges into evaluator-reaching functions must lie inside the per-flow try or be triaged table entries; handler shape; API-level try in process_events",
+             text="Claims the ISOLATION clause only: every call edge from the uncontained event loop into a function that can evaluate Colang expressions (or raise Colang errors) is either inside the per-flow try whose handler fails only that flow, a benign edge with a stated reason, or a demonstrated known finding (F8.1-F8.4); process_events converts escaping exceptions into a ColangError event with a handler that cannot raise. Termination is not decided by this family.",
+             ref="DESIGN.md C10"),
 }
 NA = {
  "C18": "equality of string results over all chunkings of a stateful transducer; no structural necessary condition that is not a brittle proxy (DESIGN.md C18)",
